@@ -53,8 +53,6 @@ COARSE_BENIGN = {
     "typelib.serdes.strload": "keyed by the exact text (str/bytes compare by content)",
     "typelib.serdes.get_items_iter": "keyed by class identity",
     "typelib.py.refs._resolve_module_name": "keyed by exact strings (its ambient read is R12.4)",
-    "typelib.binding._get_binding": "keyed by the callable object",
-    "typelib.py.inspection.cached_signature": "keyed by the callable object",
     "typelib.py.inspection.cached_type_hints": "keyed by the class object; the returned dict is shared (mutation is R12.8)",
     "typelib.py.inspection.cached_simple_attributes": "keyed by the class object",
     "typelib.py.inspection.cached_issubclass": "boolean",
